@@ -673,11 +673,35 @@ func execC06Hist(c *vf.Ctx, d *vf.Driver, cs c06Case) {
 				failed("property", where+": Decrypt panics", goat.String(), "an error")
 			case op == "dec-right" && !(goat.Tag == "ok" && bytes.Equal(goat.PT, pt)):
 				failed("property", where+": the recipient's key no longer decrypts", goat.String(), "the plaintext")
+			case op == "dec-other" && c06SameKeyMaterial(e.keys[keyID], e.keys[fmt.Sprintf("k%d", t)]):
+				// another recipient that was given the SAME key material (e.g. two RSA-OAEP recipients
+				// drawn from one key pool): that key is the recipient's key, decryption must succeed
+				if !(goat.Tag == "ok" && bytes.Equal(goat.PT, pt)) {
+					failed("property", where+": the recipient's key (held by another recipient too) no longer decrypts", goat.String(), "the plaintext")
+				}
 			case op != "dec-right" && goat.Tag == "ok":
 				failed("property", where+": a key that is not the recipient's decrypts", goat.String(), "an error")
 			}
 		}
 	}
+}
+
+// c06SameKeyMaterial: two key records hold the same secret (their IDs may differ).
+func c06SameKeyMaterial(a, b *jKey) bool {
+	if a == nil || b == nil {
+		return false
+	}
+	switch {
+	case a.Oct != nil || b.Oct != nil:
+		return a.Oct != nil && b.Oct != nil && bytes.Equal(a.Oct, b.Oct)
+	case a.RSA != nil || b.RSA != nil:
+		return a.RSA != nil && b.RSA != nil && a.RSA.Equal(b.RSA)
+	case a.EC != nil || b.EC != nil:
+		return a.EC != nil && b.EC != nil && a.Crv == b.Crv && a.EC.Equal(b.EC)
+	case a.X4d != nil || b.X4d != nil:
+		return a.X4d != nil && b.X4d != nil && bytes.Equal(a.X4d, b.X4d)
+	}
+	return false
 }
 
 // buildIndepWith builds the second message; with an even seed2 it shares the keys of the base.
